@@ -1,5 +1,5 @@
 /- Driver ops for Minesweeper.  Ops: minesweeper.step, minesweeper.state, minesweeper.judge,
-   minesweeper.instance -/
+   minesweeper.instance, minesweeper.episode -/
 import JumanjiModel.Bridge.Json
 import JumanjiModel.Env.Minesweeper.Model
 import JumanjiModel.Env.Minesweeper.Bounds
@@ -80,7 +80,30 @@ def opInstance : Op := fun j => do
               ("mines_distinct", jBool (decide s.mines.Nodup)),
               ("mines_on_board", jBool (decide (∀ m ∈ s.mines, 0 ≤ m ∧ m < ((cfg.numRows * cfg.numCols : Nat) : Int)))),
               ("fresh_board", jBool (decide (InstanceOK cfg s))),
+              -- the transliterated generator replayed on the draw read off the state (its mine table)
+              ("draw_valid", jBool (decide (validDraw cfg (drawOf s)))),
+              ("generate_matches_model", jBool (decide (generate cfg (drawOf s) = s))),
               ("consistent", jBool (decide (Consistent cfg s)))])
+
+/-- {cfg, state: initial state, actions: [[r,c], …] (in-spec)} → the model's whole-episode runner `play` (C08 theorems
+    `minesweeper_play_return` / `minesweeper_episode_return` are about it): final state, return, how it ended, the
+    counters and both sides of the proved return formula -/
+def opEpisode : Op := fun j => do
+  let cfg ← getCfg (← field j "cfg")
+  let s ← getState (← field j "state")
+  let acts ← getList (fun a => do
+    match ← getList getNat a with
+    | [r, c] => if r < cfg.numRows ∧ c < cfg.numCols then pure (r, c) else throw "episode: action outside the board"
+    | _ => throw "episode: action must be [row, col]") (← field j "actions")
+  let o := play cfg s acts
+  let e := match o.ending with
+    | .running => "running" | .cleared => "cleared" | .mine => "mine" | .invalid => "invalid"
+  pure (jObj [("final", jState o.final), ("return", jRat o.ret), ("ending", jStr e),
+              ("safe_revealed", jNat (safeRevealed o.final)), ("mines_revealed", jNat (minesRevealed o.final)),
+              ("formula", jRat (cfg.rEmpty * (safeRevealed o.final : Rat) + terminalTerm cfg o.ending
+                               - cfg.rEmpty * (safeRevealed s : Rat))),
+              ("objective", jRat (objective cfg o.final)),
+              ("start_consistent", jBool (decide (Consistent cfg s)))])
 
 /-- C01 bounds op: {"cfg"} → the proved interval of every observation leaf -/
 def opBounds : Op := fun j => do
@@ -89,6 +112,6 @@ def opBounds : Op := fun j => do
 
 def ops : List (String × Op) :=
   [("minesweeper.step", opStep), ("minesweeper.state", opState), ("minesweeper.judge", opJudge),
-   ("minesweeper.instance", opInstance),
+   ("minesweeper.instance", opInstance), ("minesweeper.episode", opEpisode),
    ("minesweeper.bounds", opBounds)]
 end Jb.Minesweeper
